@@ -90,7 +90,8 @@ def run(ctx, out):
                 "status; FIFOs and sockets are never opened; (b) library: probe copy with channel / recording / no-op updaters "
                 "under the same kind of faults: copy() returns and the update channel closes; block_size 0 returns an error; "
                 "(c) empty trees; (d) a FIFO / socket / directory / dangling link / link-to-FIFO named .gitignore under --gitignore "
-                "(root and sub-directory): never opened, run ends; (e) the environment truncates the source at the n-th "
+                "(root and sub-directory): never opened, run ends; (d') a FIFO source whose destination name is already taken by a directory / "
+                "file / link / dangling link / FIFO / socket, with and without -n: the run ends; (e) the environment truncates the source at the n-th "
                 "copy_file_range / lseek / pread / read on it (dense and sparse, both drivers, kernel copy available or failing "
                 "with EXDEV / ENOSYS): the run must end; non-trivial = run with an injected fault; distinct = (plan, driver, workers, entry point)"
                 % (nfiles, bound_ms // 1000))
@@ -272,6 +273,53 @@ def run(ctx, out):
                         got = None
                     if got is None or _st.S_IFMT(got) != _st.S_IFMT(want) or not os.path.exists(os.path.join(d, "dst", "other", "a.txt")):
                         out.violation("--gitignore with a %s named .gitignore: exit 0 but the entry was not recreated / the tree is incomplete" % kind, rep)
+                shutil.rmtree(d, ignore_errors=True)
+    # (d') what xcp FINDS where a special file has to be recreated: an empty or populated directory, a regular file, a link to a
+    #      file / to a directory, a dangling link, a FIFO, a socket — with and without -n: the run must end (replace it, or
+    #      refuse), never retry for ever
+    for found in ("dir-empty", "dir-populated", "file", "link-to-file", "link-to-dir", "dangling", "fifo", "sock"):
+        for driver in ("parfile", "parblock"):
+            for extra in ([], ["-n"]):
+                if quick and extra and found not in ("dir-empty", "link-to-dir"):
+                    continue
+                d = os.path.join(d0, "sp_%s_%s_%d" % (found, driver, len(extra)))
+                os.makedirs(os.path.join(d, "src"))
+                os.makedirs(os.path.join(d, "dst", "src"))
+                os.mkfifo(os.path.join(d, "src", "node"))
+                open(os.path.join(d, "src", "zfile"), "wb").write(b"z" * 1000)
+                t = os.path.join(d, "dst", "src", "node")
+                if found.startswith("dir"):
+                    os.makedirs(t)
+                    if found == "dir-populated":
+                        open(os.path.join(t, "inside"), "wb").write(b"i")
+                elif found == "file":
+                    open(t, "wb").write(b"f")
+                elif found == "link-to-file":
+                    open(os.path.join(d, "elsewhere"), "wb").write(b"e")
+                    os.symlink(os.path.join(d, "elsewhere"), t)
+                elif found == "link-to-dir":
+                    os.makedirs(os.path.join(d, "elsewhere.d"))
+                    os.symlink(os.path.join(d, "elsewhere.d"), t)
+                elif found == "dangling":
+                    os.symlink("nowhere", t)
+                elif found == "fifo":
+                    os.mkfifo(t)
+                else:
+                    sk = socket.socket(socket.AF_UNIX)
+                    cwd = os.getcwd()
+                    try:
+                        os.chdir(os.path.dirname(t))
+                        sk.bind("node")
+                    finally:
+                        os.chdir(cwd)
+                        sk.close()
+                argv = [ctx.bins["xcp"], "-r", "--driver", driver, "-w", "2"] + extra + ["src", "dst"]
+                r = xcp.run_supervised(sup, argv, d, d, tag="q", timeout_ms=15000)
+                out.case(("special-onto-existing", found, driver, tuple(extra)), True)
+                out.count("special_onto_existing_entry")
+                if r.meta.get("timeout") or r.exit == 124:
+                    out.violation("xcp does not terminate when a %s sits where a FIFO has to be recreated (%s%s; %d calls traced before the bound)"
+                                  % (found, driver, " -n" if extra else "", len(r.trace)), dict(argv=argv[1:], found=found))
                 shutil.rmtree(d, ignore_errors=True)
     # (e) the ENVIRONMENT shrinks a source while it is being copied (the supervisor truncates it at a chosen call of
     #     xcp on that file): every loop must notice the lack of progress — dense and sparse sources, both drivers,
